@@ -202,7 +202,7 @@ def gen_cases(rng, tier, k):
     contig = k in CONTIG
     zero = k == 2
     cases = []
-    ng = 260 if thorough else 60
+    ng = 900 if thorough else 220
     for _ in range(ng):                          # one-shot expansion
         v, e = gen_graph(rng, contig, zero)
         d = rng.choice([0, 1, 2, 2, 3, 3, 4, 5, 6, 6])
@@ -214,7 +214,7 @@ def gen_cases(rng, tier, k):
     for _ in range(ng // 2):                     # Rips
         cases.append(([gen_rips(rng, zero)], "rips"))
     if k in LINKED:
-        for _ in range(50 if thorough else 12):
+        for _ in range(160 if thorough else 40):
             v, e = gen_graph(rng, contig, zero, nmax=8)
             d = rng.choice([-1, 0, 1, 2, 2, 3, 3, 4, 6])
             for name, items in edge_orders(rng, v, e, contig, 6):
